@@ -154,9 +154,36 @@ Theorem C06_compile_scope_correct_stage2 : forall cf p funs fuel st en,
   forallb (stmt5 false true) p = true -> compile_scope cf p = Some funs ->
   exec_list fuel p [] true s_empty = (st, en, CNorm) ->
   exists n, forall k, Gen.run_funs bk_m cf (n + k) funs = eval_cells_fuel fuel p.
-Proof. exact compile_scope_correct_stage2. Qed.
+Proof. exact compile_scope_correct_stage2. Qed.   (* corollary of stage 3 below *)
 
 Print Assumptions C06_compile_scope_correct_stage2.
+
+(* --- compile_scope_correct, stage 3: `for i in 0..n { .. }` loops and `if a < c { .. } else { .. }` on top of stage 2
+       (fragment `stmt6 false false true false` of ScopeDefsN.v): ONE variable for the loop variable, a FRESH cell per
+       iteration for every variable declared in the loop body (closures created in different iterations do not share
+       them), the hidden iterator local, the scope end of the loop; loops and ifs nest, also in function bodies, `return`
+       out of loops.  Stage 2 is a corollary. --- *)
+Theorem C06_compile_scope_correct_stage3 : forall cf p funs fuel st en,
+  forallb (stmt6 false false true false) p = true -> compile_scope cf p = Some funs ->
+  exec_list fuel p [] true s_empty = (st, en, CNorm) ->
+  exists n, forall k, Gen.run_funs bk_m cf (n + k) funs = eval_cells_fuel fuel p.
+Proof. exact compile_scope_correct_stage3. Qed.
+
+Print Assumptions C06_compile_scope_correct_stage3.
+
+(* --- compile_scope_correct, stage 4: break / continue out of nested scopes with captured locals (fragment
+       `stmt6 true false true false`), for the repaired compiler (`c_break_pops_first cf = true`: scope-end ops before the
+       jump; the shipped order is refuted by C06_compile_scope_refuted_break_dead_pops): the early exit emits Pop for the
+       locals not captured so far and CloseUpvalue for the captured ones, then jumps to the loop exit / back to the loop
+       start; in nested blocks and ifs, nested loops (innermost), loops inside function bodies. --- *)
+Theorem C06_compile_scope_correct_stage4 : forall cf p funs fuel st en,
+  c_break_pops_first cf = true ->
+  forallb (stmt6 true false true false) p = true -> compile_scope cf p = Some funs ->
+  exec_list fuel p [] true s_empty = (st, en, CNorm) ->
+  exists n, forall k, Gen.run_funs bk_m cf (n + k) funs = eval_cells_fuel fuel p.
+Proof. exact compile_scope_correct_stage4. Qed.
+
+Print Assumptions C06_compile_scope_correct_stage4.
 Print Assumptions C06_compile_scope_correct_stage1.
 Print Assumptions C06_backend_swap.
 Print Assumptions C06_compile_scope_correct_stage1a.
